@@ -553,6 +553,31 @@ def gen_gs_case(rng, retype=False):
                 ops=[rng.random() < 0.8 for _ in range(rng.randint(3, 45))])
 
 
+def gen_gs_on_grid_case(rng, retype=False):
+    """initial points taken FROM the grid (plus partial ones), the whole grid run through, with a
+    get_state / clone_from_state restore at some point of the run"""
+    from syne_tune.optimizer.schedulers.searchers import GridSearcher
+    from syne_tune.config_space import Float, Integer
+    quiet()
+    case = gen_gs_case(rng, False)
+    space = build_space(case["spec"])
+    ns = None
+    if case["num_samples"] is not None:
+        ns = {k: case["num_samples"] for k, d in space.items() if isinstance(d, (Float, Integer))}
+    g = GridSearcher(space, metric="m", points_to_evaluate=[], num_samples=ns, shuffle_config=False)
+    grid = [dict(zip(g.hp_keys, vals)) for vals in g.hp_values_combinations]
+    pick = rng.sample(grid, min(len(grid), rng.randint(1, 3)))
+    pts = [{k: (v.item() if hasattr(v, "item") else v) for k, v in c.items() if k in space and not isinstance(v, bool)}
+           for c in pick]
+    from syne_tune.config_space import Domain
+    pts = [{k: v for k, v in pt.items() if isinstance(space[k], Domain)} for pt in pts]
+    if rng.random() < 0.4:
+        pts.insert(rng.randint(0, len(pts)), {})
+    n = len(grid) + len(pts) + 3
+    case.update(pts=pts, allow_dup=False, ops=[True] * n, restore_at=rng.randint(1, n - 2), on_grid=True)
+    return case
+
+
 def run_gs_case(ctx, case):
     from syne_tune.optimizer.schedulers.searchers import GridSearcher
     from syne_tune.config_space import Domain, Float, Integer
@@ -567,6 +592,9 @@ def run_gs_case(ctx, case):
     combos = [dict(zip(s.hp_keys, vals)) for vals in s.hp_values_combinations]
     outs = []
     for i, g in enumerate(case["ops"]):
+        if case.get("restore_at") == i:
+            # the run goes on with a searcher re-created from a state snapshot: it must still enumerate the grid once
+            s = s.clone_from_state(s.get_state())
         if g:
             outs.append(s.get_config(trial_id=str(i)))
         else:
@@ -1084,6 +1112,70 @@ def run_batch_case(ctx, case):
     return term, viol, len(batch)
 
 
+def gen_batch_mixed_case(rng):
+    import itertools
+    spec, size = small_finite_spec(rng)
+    space = build_space(spec)
+    keys = list(space)
+    allc = [dict(zip(keys, vals)) for vals in itertools.product(*[enum_values(space[k]) for k in keys])]
+    rng.shuffle(allc)
+    npts = rng.randint(1, min(4, size))
+    n_before = rng.randint(0, max(0, size - 2))      # single suggestions before the batch (consume some initial points)
+    return dict(kind="batch_mixed", spec=spec, pts=allc[:npts], n_before=n_before, batch_size=rng.randint(2, 6),
+                fates=[rng.choice(["obs", "obs", "pending", "failed", "none"]) for _ in range(size)],
+                mf=rng.random() < 0.4, num_init_random=rng.choice([0, 1, 2, 3, 6]), seed=rng.randrange(10 ** 6),
+                metrics=gen_metrics(rng, size + 2))
+
+
+def run_batch_mixed_case(ctx, case):
+    from syne_tune.optimizer.schedulers import FIFOScheduler, HyperbandScheduler
+    quiet()
+    space = build_space(case["spec"])
+    so = dict(FAST_GP, num_init_random=case["num_init_random"])
+    with contextlib.redirect_stdout(io.StringIO()):
+        if case["mf"]:
+            sch = HyperbandScheduler(space, searcher="bayesopt", type="stopping", resource_attr="epoch", max_t=9, grace_period=1,
+                                     reduction_factor=3, search_options=so, metric="m", mode="min", random_seed=case["seed"],
+                                     points_to_evaluate=case["pts"])
+        else:
+            sch = FIFOScheduler(space, searcher="bayesopt", search_options=so, metric="m", mode="min",
+                                random_seed=case["seed"], points_to_evaluate=case["pts"])
+        s = sch.searcher                      # public property; the searcher API is driven directly
+        s.configure_scheduler(sch)
+        earlier = []
+        for t in range(case["n_before"]):
+            c = s.get_config(trial_id=str(t)) if not case["mf"] else s.get_config(trial_id=str(t), milestone=1)
+            if c is None:
+                break
+            earlier.append(c)
+            fate = case["fates"][t]
+            if fate == "none":
+                continue                       # suggested, trial not started yet (batch suggestions of a scheduler)
+            s.register_pending(str(t), config=c, milestone=1) if case["mf"] else s.register_pending(str(t), config=c)
+            if fate == "obs":
+                s.on_trial_result(str(t), c, result={"m": float(case["metrics"][t]) if not isinstance(case["metrics"][t], str) else 0.5,
+                                                     "epoch": 1}, update=True)
+            elif fate == "failed":
+                s.evaluation_failed(str(t))
+        registered = [hp_tuple(space, c) for c, f in zip(earlier, case["fates"]) if f != "none"]
+        kwargs = dict(milestone=1) if case["mf"] else {}
+        batch = s.get_batch_configs(batch_size=case["batch_size"], **kwargs)
+    viol = None
+    seen = list(registered)     # observed / pending / failed configurations
+    for c in batch:
+        bad = check_suggestion(space, as_scheduler_would(space, c))
+        t = hp_tuple(space, c)
+        if bad and viol is None:
+            viol = bad
+        if t in seen and viol is None:
+            viol = ("repeated_configuration_in_batch", "batch %s; observed/pending/failed before: %s" % (
+                [hp_tuple(space, x) for x in batch], registered))
+        seen.append(t)
+    if viol is None and len(batch) > case["batch_size"]:
+        viol = ("batch_larger_than_requested", "%d > %d" % (len(batch), case["batch_size"]))
+    return viol, len(batch), len(earlier)
+
+
 # --------------------------------------------------------------------------
 # 4c. restrict_configurations: the SAME list object handed to two searchers / schedulers
 # --------------------------------------------------------------------------
@@ -1295,6 +1387,7 @@ def run(ctx, replay=None):
     else:
         cases = [gen_rs_case(rng, True) for _ in range(ctx.n(160, 1500))] + exhaustion_cases(ctx, rng)
         cases += [gen_gs_case(rng, True) for _ in range(ctx.n(120, 1200))]
+        cases += [gen_gs_on_grid_case(rng) for _ in range(ctx.n(40, 300))]
         # minimal input of known finding F-C06-2 (finrange with colliding rounded values), run every time
         cases.append(dict(kind="gs", spec=[["x", "dom", ["finrange", 0.0, 2.0, 5, True]]], pts=[], shuffle=False,
                           allow_dup=False, seed=0, num_samples=None, ops=[True] * 6))
@@ -1304,6 +1397,7 @@ def run(ctx, replay=None):
         cases += [gen_mb_case(rng, True) for _ in range(ctx.n(24, 100))]
         cases += [gen_batch_case(rng) for _ in range(ctx.n(40, 300))]
         cases += [gen_shared_case(rng) for _ in range(ctx.n(40, 300))]
+        cases += [gen_batch_mixed_case(rng) for _ in range(ctx.n(60, 400))]
         # directed: initial points ON the bounds of domains whose bounds do not round-trip through log/exp (DEHB keeps
         # them encoded), and a box-corner local optimiser on such domains (decoding of encoded 0.0 / 1.0)
         odd = [["lr", "dom", ["loguniform", 1e-6, 0.1]], ["wd", "dom", ["loguniform", 1e-5, 1e-2]],
@@ -1362,7 +1456,8 @@ def run(ctx, replay=None):
         elif k == "gs":
             term, prod, viol, nontriv = run_gs_case(ctx, case)
             ctx.count(case, nontrivial=nontriv)
-            ctx.h("grid_searcher", ("shuffle" if case["shuffle"] else "product") + ("+dup" if case["allow_dup"] else ""))
+            ctx.h("grid_searcher", ("shuffle" if case["shuffle"] else "product") + ("+dup" if case["allow_dup"] else "") +
+                  ("+on_grid_points+restore" if case.get("on_grid") else ""))
             if viol:
                 report(ctx, viol, case, "GridSearcher")
             gs_terms.append(term)
@@ -1393,6 +1488,12 @@ def run(ctx, replay=None):
             for sig, text in viols:
                 ctx.violation("property", "%s (shared restrict_configurations): %s — %s" % (case["via"], sig["event"], text),
                               case=case, signature=sig)
+        elif k == "batch_mixed":
+            viol, nb, ne = run_batch_mixed_case(ctx, case)
+            ctx.count(case, nontrivial=nb >= 2)
+            ctx.h("batch_mixed", "%s pts=%d before=%d batch=%d" % ("mf" if case["mf"] else "fifo", len(case["pts"]), min(ne, 3), min(nb, 3)))
+            if viol:
+                report(ctx, viol, case, "GPMultiFidelitySearcher.get_batch_configs" if case["mf"] else "GPFIFOSearcher.get_batch_configs")
         elif k == "batch":
             term, viol, nb = run_batch_case(ctx, case)
             ctx.count(case, nontrivial=case["left"] < case["batch_size"] or nb >= 2)
